@@ -1089,6 +1089,31 @@ class StrMethod:
                 return getattr(s, self.name)(*args)
             if self.name in ("lower", "upper", "strip", "replace", "startswith", "endswith", "split", "format", "isdigit", "isalpha", "isalnum", "isupper", "islower", "isspace", "title", "capitalize", "zfill", "rsplit", "partition", "rpartition", "removeprefix", "removesuffix", "lstrip", "rstrip", "count", "find", "rfind", "index", "splitlines", "expandtabs", "casefold", "swapcase", "ljust", "rjust", "center", "isidentifier", "isnumeric", "isdecimal", "istitle", "isascii", "isprintable"):
                 return getattr(s, self.name)(*args)
+        if self.name == "format" and isinstance(s, str):
+            # "...{}...{0}...{name}".format(...) with abstract arguments: a template with holes
+            import string as _string
+
+            parts = []
+            auto = 0
+            for lit, field, spec, conv in _string.Formatter().parse(s):
+                if lit:
+                    parts.append(lit)
+                if field is None:
+                    continue
+                if spec or conv:
+                    raise Unsupported(f"str.format with format spec in {s!r}")
+                if field == "":
+                    val = args[auto]
+                    auto += 1
+                elif field.isdigit():
+                    val = args[int(field)]
+                elif field in kwargs:
+                    val = kwargs[field]
+                else:
+                    raise Unsupported(f"str.format field {field!r} in {s!r}")
+                parts.append(interp.strify(val))
+            t = Tmpl(parts)
+            return "".join(t.parts) if all(isinstance(p_, str) for p_ in t.parts) else t
         if self.name == "join" and isinstance(s, str):
             (seq,) = args
             if isinstance(seq, Opaque):
